@@ -5,6 +5,11 @@ V = os.path.dirname(os.path.dirname(os.path.abspath(__file__)))
 ALL = ['C%02d' % i for i in range(1, 20)]
 
 CHECKS = {
+ 'C03': dict(
+   technique='static abstract walk of every peek site with "no byte available" (finite evaluation of the branch conditions on next_byte = -1 / chunk exhausted) reporting commit actions reachable before the function defers; carry-protocol pairing rules; enumeration of direct look-ahead conditions',
+   text='Decides the mechanism that makes chunk boundaries invisible, for every path: all 12 peek sites are classified (defer / closed-only / commits); a site that commits at end of chunk is a violation unless its two outcomes agree on well-formed input (tabled with reasons) - F1 and D5 are recorded findings; a byte accumulated without being consumed is never followed by HTP_DATA; a consolidated line is cleared (or handed on / rewound) before OK; carried bytes are appended at the fill offset; the 8 direct look-ahead conditions are reviewed heuristics and a new one alarms. Not decided: equality of the two parses as values.',
+   note='The statement is about well-formed exchanges; heuristics for ill-formed input are tabled, not alarmed. Known findings F1, D5.',
+   ref='§4.3'),
  'C18': dict(
    technique='static interprocedural nullness dataflow over every may-fail allocation result; dangling-owner rule (free of a long-lived field / out-parameter with an exit that neither reassigns it nor releases its owner, completed at call sites); must-analysis for shallow-copy aliasing; hand-over atomicity rule',
    text='Decides for every allocation site and every path, i.e. for the failure of any single allocation: the NULL result is tested before any dereference (201 tracked results, summaries for 368 dereferencing parameters), no owner field or out-parameter is left pointing at freed memory on an error exit (four such defects D1a-d were found, replayed by k-th-allocation failure and repaired by fix commits), a shallow copy is not destroyed while it aliases the original (D2, recorded), element hand-over between two owners has no exit inside the moving loop (D17 x3, recorded). Not decided: that later calls keep honouring the API contract after a failure.',
